@@ -10,6 +10,36 @@ namespace Fsel
 /-- UTF-8 length in bytes (Rust `String::len`) -/
 def utf8Len (s : Str) : Nat := (s.map Char.utf8Size).sum
 
+def u128Max : Nat := 2 ^ 128 - 1
+
+/-- `strip_prefix('+').unwrap_or(..)` -/
+def stripPlus : Str → Str
+  | '+' :: t => t
+  | s => s
+
+/-- `[+]digits[.digits]` with at least one digit (what `scale_size` calls a plain decimal number):
+    the digits read as one number and the number of digits after the point -/
+def plainDecimal? (number : Str) : Option (Nat × Nat) :=
+  let int0 := number.takeWhile (· != '.')
+  let frac := (number.dropWhile (· != '.')).drop 1          -- `split_once('.')`
+  let int := stripPlus int0
+  if !(int.isEmpty && frac.isEmpty) && (int ++ frac).all isDigit then some (digitsVal (int ++ frac), frac.length)
+  else none
+
+/-- `scale_size` (D67 fix): a plain decimal number is scaled in `u128` integers (exact, rounded down,
+    saturating at `u64::MAX`); anything else (exponents, `inf`, numbers too long for `u128`) by one `f64`
+    multiplication.  The second component says whether the model's value is the implementation's. -/
+def scaleSize (number : Str) (v : Num) (mult : Nat) : Nat × Bool :=
+  let viaFloat : Nat × Bool := let p := v.mul (Num.ofNat mult); (p.toU64, p.isExact)
+  if sizeScaledInIntegers then
+    match plainDecimal? number with
+    | some (digits, fracLen) =>
+      if digits ≤ u128Max && fracLen ≤ 38 && digits * mult ≤ u128Max then
+        (min (digits * mult / 10 ^ fracLen) u64Max, true)
+      else viaFloat
+    | none => viaFloat
+  else viaFloat
+
 def sizeRung (string : Str) : List (Str × Nat × Nat × Bool × Nat) → Option (Option Nat)
   | [] => none
   | (sfx, minLen, cut, isFloat, mult) :: rest =>
@@ -17,7 +47,7 @@ def sizeRung (string : Str) : List (Str × Nat × Nat × Bool × Nat) → Option
       let body := string.take (string.length - cut)
       if isFloat then
         match parseF64? body with
-        | some v => some (some (v.mul (Num.ofNat mult)).toU64)
+        | some v => some (some (scaleSize body v mult).1)
         | none => some none
       else
         match parseU64? body with
@@ -38,7 +68,7 @@ def parseFilesizeExact (s : Str) : Bool :=
   match go with
   | some (_, _, cut, true, mult) =>
     match parseF64? (string.take (string.length - cut)) with
-    | some v => (v.mul (Num.ofNat mult)).isExact
+    | some v => (scaleSize (string.take (string.length - cut)) v mult).2
     | none => true
   | _ => true
 
